@@ -888,6 +888,86 @@ def rule_boxhdr_eval(ctx):
         ctx.ok(rid, "parse|size-rules", "%d headers parsed as the box format prescribes" % rows, nontrivial=True, fn=f)
 
 
+def rule_nomoreaux(ctx, bs):
+    """NoMoreAuxBox is armed exactly when the codestream box runs to the end of the file"""
+    from ..facts import op_const, op_local, op_place
+    from ..intervals import value_class
+    from ..mirutil import Defs
+    rid = "R-NOMOREAUX"
+    ctx.rule(rid, "the container parser promises `NoMoreAuxBox` when no auxiliary box can follow: a bare or invalid stream, or a codestream "
+                  "box that runs to the end of the file (box size 0 -> bytes_left None).  Every construction of "
+                  "DetectState::InCodestream { bytes_left, pending_no_more_aux_box } must arm the event exactly then: the flag is "
+                  "`false`; or the constant `true` next to a constant `None`; or `Option::is_none` of the very value stored as "
+                  "bytes_left (or of the box size it was mapped from).  A flag taken from anything else - the jxlp `last` bit says "
+                  "nothing about boxes that follow - announces the end of metadata while Exif / XML boxes are still to come (seed C10n)")
+    adt = bs.adts.get("jxl_bitstream::container::DetectState")
+    var = next((v for v in (adt or {}).get("variants", []) if v["name"] == "InCodestream"), None)
+    names = [x[0] for x in var["fields"]] if var else []
+    if "bytes_left" not in names or "pending_no_more_aux_box" not in names:
+        ctx.anchor_missing(rid, "DetectState::InCodestream { bytes_left, pending_no_more_aux_box }")
+        return
+    ib, ip = names.index("bytes_left"), names.index("pending_no_more_aux_box")
+    n = 0
+    for f in bs.fn_list:
+        if f.kind == "Promoted":
+            continue
+        defs = None
+        for b, blk in enumerate(f.blocks):
+            if blk[2]:
+                continue
+            for st in blk[0]:
+                if not (st[0] == "=" and st[2][0] == "agg" and st[2][1][0] == "adt" and st[2][1][1] == "jxl_bitstream::container::DetectState"
+                        and st[2][1][2] == "InCodestream"):
+                    continue
+                if defs is None:
+                    defs = Defs(f)
+                    ctx.seen(f)
+                n += 1
+                ops = st[2][2]
+                ob, opn = ops[ib], ops[ip]
+                key = "%s|site#%d" % (f.path.split("::")[-1], n)
+
+                def is_none_const(o):
+                    l = op_local(o)
+                    d = defs.single(l) if l is not None else None
+                    if d and d[2] == "assign" and d[3][2][0] == "agg" and d[3][2][1][0] == "adt" and d[3][2][1][1] == "core::option::Option":
+                        return d[3][2][1][2] == "None"
+                    c = op_const(o)
+                    return bool(c) and "None" in str(c.get("s", ""))
+                c = op_const(opn)
+                verdict = None
+                if c is not None and str(c.get("v")) == "0":
+                    verdict = "never armed here"
+                elif c is not None and str(c.get("v")) == "1":
+                    verdict = "armed with bytes_left = None" if is_none_const(ob) else None
+                else:
+                    lp, lb = op_local(opn), op_local(ob)
+                    d = defs.single(lp) if lp is not None else None
+                    if d and d[2] == "call" and callee(d[3]) and callee(d[3])["fn"].startswith("core::option::Option::<T>::is_none") and lb is not None:
+                        a = op_local(d[3][2][0]) if d[3][2] else None
+                        da = defs.single(a) if a is not None else None
+                        src = da[3][2][2][0] if da and da[2] == "assign" and da[3][2][0] == "ref" and len(da[3][2][2]) == 1 else a
+                        cls = set(value_class(f, lb))
+                        # the box size that bytes_left was mapped from
+                        for x in list(cls):
+                            dx = defs.single(x)
+                            if dx and dx[2] == "call" and callee(dx[3]) and callee(dx[3])["fn"].startswith("core::option::Option::<T>::map") and dx[3][2]:
+                                y = op_local(dx[3][2][0])
+                                if y is not None:
+                                    cls |= set(value_class(f, y))
+                        if src in cls:
+                            verdict = "armed iff bytes_left is None"
+                if verdict:
+                    ctx.ok(rid, key, verdict, nontrivial=True, fn=f)
+                else:
+                    ctx.bad(rid, "%s|armed-by-something-else" % f.path.split("::")[-1], "a DetectState::InCodestream is built whose pending_no_more_aux_box is "
+                            "not `false`, not `true` beside `bytes_left: None`, and not `is_none()` of the stored bytes_left: NoMoreAuxBox "
+                            "can be announced before a box that follows a sized codestream box, or never for one that runs to the end",
+                            fn=f, pos=st[3] if len(st) > 3 else None)
+    ctx.count(rid + ".sites", n)
+    ctx.floor(rid + ".sites", 1)         # 4 today; helpers may merge them (benign G06)
+
+
 def main(pid, tier, repo=None):
     ctx = Ctx(pid, tier, configs=("workspace",), repo=repo)
     bs = ctx.prog.crate("jxl_bitstream")
@@ -898,6 +978,7 @@ def main(pid, tier, repo=None):
     rule_consumed(ctx, bs)
     rule_retry(ctx, bs)
     rule_auxbox(ctx)
+    rule_nomoreaux(ctx, bs)
     from . import c09
     c09.rule_refeed(ctx)
     from . import fixguards
